@@ -2,16 +2,20 @@
 
 Three kinds of cases (see lean/Glom/Driver/C18.lean for the JSON shapes):
   repr    an object (T expression rooted at T/S/A, or Path) given by root + steps; run_impl builds it
-          with the public API, takes repr, eval(repr) in a namespace with T, S, A, Path, the repr of
-          the result, a pickle round trip, and evaluates original and reconstruction on sample targets
+          with the public API, takes repr, eval(repr) in a namespace with T, S, A, Path and the
+          builtins, the repr of the result, a pickle round trip, and evaluates original and
+          reconstruction on sample targets
   seq     a Path given by root + (op, arg) steps and one sequence operation
           (len, p[i], p[a:b:c], values, items, ==, startswith, Path(p, q), from_t)
   concat  C01's heap targets: glom(t, Path(p, q)) against glom(glom(t, p), q)
-A literal is carried as its bbrepr text (decoded with eval, checked to round-trip when generated).
+An argument is carried *structurally* (scalars by value, containers by their elements, nested T /
+Path objects by their steps) — never through glom's own bbrepr, so that a change to the printing
+of literals cannot hide itself (seeded change C18-s9).
 """
 import builtins
 import itertools
 import json
+import math
 import os
 import pickle
 import random
@@ -24,34 +28,69 @@ PROP = 'C18'
 LEAN_MODULES = ['Glom.Props.C18']
 FACT_FILES = ['C18Facts', 'TFacts', 'ExcFacts', 'RegFacts', 'c18']
 READY = True
+
+# ---------------------------------------------------------------------------------------------
+# GATED CLASS (genuine defect, see the report / DESIGN §5): the `_BBRepr` instance raises reprlib's
+# limits to 1024, not to "no limit" — a str / bytes literal whose repr is longer than 1024
+# characters, an int of more than 1024 digits, a container of more than 1024 elements and a nested
+# T / Path argument whose text is longer than 1024 characters are cut with '...' in the repr of a
+# T expression, and eval(repr(x)) is a SyntaxError or — silently — a different object
+# (T['a' * 1025] reads back with a 1021-character key).  Set to True once bbrepr's limits are
+# removed in /repo; until then literals above `minLimit` (Spec/C18.lean) are not generated.
+HUGE_LITERALS = os.environ.get('C18_HUGE_LITERALS') == '1'
+# GATED CLASS (genuine defect): `_format_path` keeps T runs and plain segments in one list and tells them
+# apart by `type(part) is list` — a plain segment that is a list is printed as a T run:
+# repr(Path('a', ['.', 'x'])) == "Path('a', T.x)" (another path, silently), repr(Path('a', [])) ==
+# "Path('a', T)", repr(Path('a', [1, 2])) raises TypeError (and inside a T argument prints as
+# <Path instance at 0x…>).  Set to True once fixed; until then no top-level list segment is generated.
+LIST_SEGMENTS = os.environ.get('C18_LIST_SEGMENTS') == '1'
+PLAIN_BUILTINS = os.environ.get('C18_PLAIN_BUILTINS') == '1'
+# GATED CLASS (genuine defect, minor): `_format_path` prints a plain segment with the builtin
+# `repr(part)`, not with `bbrepr(part)`: Path('a', len) prints as Path('a', <built-in function len>).
+# The model treats a builtin function / class inside a 'P' segment (and inside a slice object,
+# whose repr is Python's) as outside the domain; they are generated only to tie the model's text.
+# ---------------------------------------------------------------------------------------------
+
 MANIFEST = dict(
-    text="Lean 4 theorems, for every literal type, every root and every list of steps of any length and nesting: the parser of the repr grammar (the model of eval(repr(x)): `.name`, `.__('name')`, `[index]` with Python's tuple / trailing-comma / `()` / slice rules, `(args, k=v)`, `.__star__()`, `Path(part, …)` with Path.__init__'s flattening, the first part carrying a root other than T) applied to what `_format_t` / `_format_slice` / `format_invocation` / `_format_path` print returns the same root and steps (keyword arguments as a dict) and an object with the same repr (`c18_roundtrip_t`, `c18_roundtrip_path`, mutual induction over arguments / items / steps); `__setstate__ ∘ __getstate__` is the identity (`c18_pickle`); len, p[i], p[a:b:c], values, items, ==, startswith, Path(p, q), from_t computed on the flat `__ops__` tuple are the same operations on the list of steps for ALL Int index / slice triples (`c18_seq_laws`, with `pySlice` = CPython's slice.indices semantics and its lemmas); glom(t, Path(p, q)) = glom(glom(t, p), q) for wildcard-free paths of any length on any heap (`c18_concat`, from `walk_append` over C01's walk); per-run facts obligation `c18_facts_wf` by `decide` on the switches of `_format_t`, the pickling tables and the shape of `Path.__getitem__` read from /repo. Model tied to the code by comparing the model's rendered repr text, parse result, pickle result and every sequence operation with the real glom (index / slice triples enumerated exhaustively for lengths 0–5, bounds in [−8, 8]).",
-    note="trusted: Lean kernel + {propext, Classical.choice, Quot.sound}; extractor (extract/facts/c18.py); harness/driver; the token-tree level of the model: a literal argument is one atomic token (that eval of its bbrepr text gives the value back, and pickle of argument values, are CPython's — generated literals are checked to round-trip), bracket matching is lexical; Python's slice semantics (`pySlice`) validated exhaustively against CPython; BEq on expressions in the driver is structural equality of their JSON form. Arithmetic-operator reprs are outside the property. An A-rooted Path has no call / wildcard step (`_t_child` refuses them).",
-    technique='Lean 4 proof (parser ∘ formatter = id by mutual induction; sequence laws on the flat tuple; walk_append) + facts obligation by decide + differential correspondence with exhaustive index/slice enumeration',
+    text="Lean 4 theorems, for every scalar type, every root and every list of steps of any length and nesting: the parser of the repr grammar (the model of eval(repr(x)): `.name`, `.__('name')`, `[index]` with Python's tuple / trailing-comma / `()` / slice rules, `(args, k=v)`, `.__star__()`, the displays `(…)` `(x,)` `[…]` `{…}` `{k: v}`, `set()`, `frozenset({…})`, `slice(a, b, c)`, nested `Path(part, …)` with Path.__init__'s flattening, the first part carrying a root other than T) applied to what `_format_t` / `_format_slice` / `format_invocation` / `_format_path` / reprlib's container methods print returns the same root and steps (keyword arguments as a dict, a segment-free nested Path as the T it prints as) and an object with the same repr (`c18_roundtrip_t`, `c18_roundtrip_path`, `c18_roundtrip_arg`: one mutual induction over arguments / items / steps / containers / nested Paths); reprlib's limits are modelled (`truncArg`: maxlevel, per-container limits, maxlong / maxstring / maxother cuts) and lose nothing when `fitsArg` holds (`c18_limits_lose_nothing`), which the per-run facts obligation ties to the live `_BBRepr` instance (every int attribute of reprlib.Repr raised to >= 1024); outside: `c18_cut_counterexample`, `c18_nonfinite_counterexample`; `__setstate__ ∘ __getstate__` is the identity (`c18_pickle`); len, p[i], p[a:b:c], values, items, ==, startswith, Path(p, q), from_t computed on the flat `__ops__` tuple are the same operations on the list of steps for ALL Int index / slice triples (`c18_seq_laws`, with `pySlice` = CPython's slice.indices semantics and its lemmas); glom(t, Path(p, q)) = glom(glom(t, p), q) for wildcard-free paths of any length on any heap (`c18_concat`, from `walk_append` over C01's walk); per-run facts obligation `c18_facts_wf` by `decide` on the switches of `_format_t`, the pickling tables, the shape of `Path.__getitem__` and the limits of the `_BBRepr` instance read from /repo. Model tied to the code by comparing the model's rendered repr text (scalars rendered by a Lean model of str / bytes / int repr), parse result, pickle result and every sequence operation with the real glom (index / slice triples enumerated exhaustively for lengths 0–5, bounds in [−8, 8]).",
+    note="trusted: Lean kernel + {propext, Classical.choice, Quot.sound}; extractor (extract/facts/c18.py); harness/driver; the lexical level: a scalar (int, str, bytes, finite float, None, True, False, Ellipsis, builtin name) is one atomic token — that Python's lexer reads its repr text back as the value, the shortest-digits float repr, and pickle of argument values, are CPython's; bracket matching is lexical; Python's slice semantics (`pySlice`) validated exhaustively against CPython; BEq on expressions in the driver is structural equality of their JSON form. Domain: finite floats (inf / nan have no literal: `T(inf)` is not evaluable — outside), sets / dicts compared in reprlib's printed (sorted) order, dict arguments as dicts (insertion order is not kept by repr), sizes up to the limits of the `_BBRepr` instance (1024; larger literals are cut — reported defect, generator class gated by HUGE_LITERALS), no builtin function inside a 'P' segment or a slice object (printed by the builtin repr — reported). Arithmetic-operator reprs are outside the property. An A-rooted Path has no call / wildcard step (`_t_child` refuses them).",
+    technique='Lean 4 proof (parser ∘ formatter = id by mutual induction over the whole argument grammar; reprlib limits as a pass that is the identity inside them; sequence laws on the flat tuple; walk_append) + facts obligation by decide (incl. the limits of the live _BBRepr instance) + differential correspondence with exhaustive index/slice enumeration',
     ref='DESIGN.md §3 C18, §6.6')
 RULE = ('repr: random objects of 0–8 steps (quick) / 0–10 (thorough): T expressions rooted at T, S, A and '
         'Paths rooted at T, S and A (plain segments mixed with T runs) over attribute (incl. dunder via T.__()), item '
-        '(scalars, slices with None/int/nested-T parts, tuples incl. 0- and 1-tuples, tuples of slices), '
-        'call (positional + keyword arguments in random order), * and ** steps; arguments are literals '
-        '(ints, big ints, strings with quotes / dots / backslashes / non-ASCII, None, bools, floats, '
-        'tuples incl. () and (1,), slice objects, builtins such as len / int) or nested T/S expressions; '
-        'a one-edit mutation stream targets the printing corner cases (1-tuples, empty tuples, dunder '
-        'names, keyword order, trailing segments). seq: index i in [-8, 8] and slice triples over '
-        '{None} ∪ [-8, 8] enumerated exhaustively for path lengths 0–5 (both tiers), plus values, '
-        'items, len, from_t, and ==, startswith, Path(p, q) against equal / prefix / unrelated paths. '
+        '(atoms, slices with None/int/nested-T parts, tuples incl. 0- and 1-tuples, tuples of slices), '
+        'call (positional + keyword arguments in random order), * and ** steps; every argument position '
+        '(item key, slice part, tuple-index element, positional, keyword, Path segment, element / key / '
+        'value of a container, part of a slice object, argument of a nested T or Path) draws from: ints '
+        '(small, negative, 10**20, and >= 10**40 up to 300 digits: past reprlib\'s default maxlong), strings '
+        '(quotes / dots / backslashes / control / non-ASCII, and 31–200 characters: past maxstring), '
+        'bytes (short and past maxother), None, bools, Ellipsis, finite floats, inf / nan (outside the '
+        'domain: model tie only), builtins such as len / int, tuples / lists / sets / frozensets / dicts '
+        '(0, 1, 2–3 and 7–12 elements: past maxtuple … maxdict; nested up to 9 levels: past maxlevel), '
+        'slice objects, nested T / S expressions and nested Path objects (with stars and segments); '
+        'with C18_HUGE_LITERALS=1 also sizes past 1024. A one-edit mutation stream targets the printing '
+        'corner cases (1-tuples, empty tuples, dunder names, keyword order, trailing segments). '
+        'seq: index i in [-8, 8] and slice triples over {None} ∪ [-8, 8] enumerated exhaustively for path '
+        'lengths 0–5 (both tiers), plus values, items, len, from_t, and ==, startswith, Path(p, q) against '
+        'equal / prefix / unrelated paths, over segments that include big ints and containers. '
         'concat: C01 heap targets with a valid walk split at a random point, and one-edit bad '
-        'segments. non-trivial = an object with >= 2 steps or a nested argument; an index / slice on a '
-        'path of length >= 1; any concat case; distinct = distinct case')
-TRUSTED = ['token-tree abstraction of repr text: literal tokens atomic (CPython repr/eval round trip of '
-           'literals trusted; every generated literal is checked to satisfy eval(bbrepr(v)) == v), '
-           'bracket matching lexical',
+        'segments. non-trivial = an object with >= 2 steps or a nested / container argument; an index / '
+        'slice on a path of length >= 1; any concat case; distinct = distinct case')
+TRUSTED = ['lexical level of repr text: scalar tokens atomic (that CPython\'s lexer reads the repr of an int / '
+           'str / bytes / finite float / None / True / False / Ellipsis / builtin name back as the value is '
+           'trusted; the Lean model prints them itself and is compared with the real text), bracket '
+           'matching lexical',
            'pickle of argument values is CPython\'s',
-           'inf / nan floats (repr not evaluable) are excluded from the literal kinds']
+           'str.isprintable above U+00FF: the generator only uses code points it checks']
 ASSUMPTIONS = ['arithmetic-operator reprs are outside the property',
-               'index arguments of exact type tuple / slice are steps of their own kind; other literals are atoms',
+               'index arguments of exact type tuple / slice are steps of their own kind',
                'attribute names are identifiers',
-               'arguments that are containers holding T objects (e.g. T[(T.a, 1)] is covered, T([T.a]) is not) '
-               'are limited to index tuples and slices']
+               'sets and dicts are compared in the order reprlib prints them (sorted when sortable); '
+               'only sortable sets are generated',
+               'inf / nan floats (no literal) are outside the domain; builtin functions inside a plain '
+               'Path segment or a slice object are outside (printed by the builtin repr)',
+               'sizes above the _BBRepr limits (1024) are outside until the limits are removed '
+               '(HUGE_LITERALS gate)']
 
 NS = None
 
@@ -64,20 +103,125 @@ def namespace():
     return NS
 
 
-def bbrepr(v):
-    from glom.core import bbrepr as b
-    return b(v)
+class Unencodable(Exception):
+    pass
 
 
-def lit_value(text):
-    return eval(text, dict(vars(builtins)))
+def possibly_sorted(x):
+    """reprlib._possibly_sorted"""
+    try:
+        return sorted(x)
+    except Exception:
+        return list(x)
 
 
-# ---------------------------------------------------------------- building objects from a case
+BUILTIN_NAMES = None
+
+
+def builtin_name(v):
+    global BUILTIN_NAMES
+    if BUILTIN_NAMES is None:
+        BUILTIN_NAMES = {}
+        for k, b in vars(builtins).items():
+            if callable(b) and not k.startswith('_'):
+                BUILTIN_NAMES.setdefault(id(b), k)
+    return BUILTIN_NAMES.get(id(v))
+
+
+# ---------------------------------------------------------------- values <-> JSON (independent of glom's printing)
+def enc_scalar(v):
+    if v is None:
+        return 'None'
+    if v is True:
+        return 'True'
+    if v is False:
+        return 'False'
+    if v is Ellipsis:
+        return 'Ellipsis'
+    t = type(v)
+    if t is int:
+        return {'i': str(v)}
+    if t is str:
+        return {'s': [ord(c) for c in v]}
+    if t is bytes:
+        return {'b': list(v)}
+    if t is float:
+        if math.isfinite(v):
+            return {'f': [repr(v), v.hex()]}
+        return {'fbad': repr(v)}
+    n = builtin_name(v)
+    if n is not None and repr(v).startswith('<'):
+        return {'bi': [n, repr(v)]}
+    raise Unencodable(repr(v)[:80])
+
+
+def enc_arg(v):
+    from glom import Path
+    from glom.core import TType
+    t = type(v)
+    if t is TType:
+        return {'t': enc_ops(v.__ops__)}
+    if t is Path:
+        return {'path': enc_ops(v.path_t.__ops__)}
+    if t is tuple:
+        return {'seq': ['tuple', [enc_arg(x) for x in v]]}
+    if t is list:
+        return {'seq': ['list', [enc_arg(x) for x in v]]}
+    if t is set:
+        return {'seq': ['set', [enc_arg(x) for x in possibly_sorted(v)]]}
+    if t is frozenset:
+        return {'seq': ['frozenset', [enc_arg(x) for x in possibly_sorted(v)]]}
+    if t is dict:
+        return {'dict': [[enc_arg(k), enc_arg(v[k])] for k in possibly_sorted(v)]}
+    if t is slice:
+        return {'sliceobj': [enc_arg(v.start), enc_arg(v.stop), enc_arg(v.step)]}
+    return {'lit': enc_scalar(v)}
+
+
+def build_scalar(s):
+    if s == 'None':
+        return None
+    if s == 'True':
+        return True
+    if s == 'False':
+        return False
+    if s == 'Ellipsis':
+        return Ellipsis
+    if 'i' in s:
+        return int(s['i'])
+    if 's' in s:
+        return ''.join(chr(c) for c in s['s'])
+    if 'b' in s:
+        return bytes(s['b'])
+    if 'f' in s:
+        return float.fromhex(s['f'][1])
+    if 'fbad' in s:
+        return float(s['fbad'])
+    if 'bi' in s:
+        return getattr(builtins, s['bi'][0])
+    raise ValueError(s)
+
+
 def build_arg(a):
     if 'lit' in a:
-        return lit_value(a['lit'])
-    return build_t(a['t']['root'], a['t']['steps'])
+        return build_scalar(a['lit'])
+    if 't' in a:
+        return build_t(a['t']['root'], a['t']['steps'])
+    if 'path' in a:
+        return build_path_obj(a['path']['root'], a['path']['steps'])
+    if 'seq' in a:
+        kind, xs = a['seq']
+        vals = [build_arg(x) for x in xs]
+        return {'tuple': tuple, 'list': list, 'set': set, 'frozenset': frozenset}[kind](vals)
+    if 'dict' in a:
+        kvs = [(build_arg(k), build_arg(v)) for k, v in a['dict']]
+        order = a.get('order')          # the insertion order (the case lists the entries in printed order)
+        if order is not None:
+            kvs = [kvs[i] for i in order]
+        return dict(kvs)
+    if 'sliceobj' in a:
+        return slice(*[build_arg(x) for x in a['sliceobj']])
+    raise ValueError(a)
 
 
 def build_item(i):
@@ -117,12 +261,9 @@ def is_seg(st):
     return isinstance(st, dict) and 'seg' in st
 
 
-def build_obj(obj):
+def build_path_obj(root, steps):
+    """the way a user writes it: plain segments and T runs as arguments of Path(...)"""
     from glom import Path
-    if 't' in obj:
-        return build_t(obj['t']['root'], obj['t']['steps'])
-    root, steps = obj['path']['root'], obj['path']['steps']
-    # the way a user writes it: plain segments and T runs as arguments of Path(...)
     parts = []
     run = None
     first = True
@@ -133,7 +274,7 @@ def build_obj(obj):
                 run = None
             elif first and root != 'T':
                 parts.append(namespace()[root])
-            parts.append(lit_value(st['seg']))
+            parts.append(build_arg(st['seg']))
         else:
             if run is None:
                 run = namespace()[root if first and not parts else 'T']
@@ -146,14 +287,13 @@ def build_obj(obj):
     return Path(*parts)
 
 
+def build_obj(obj):
+    if 't' in obj:
+        return build_t(obj['t']['root'], obj['t']['steps'])
+    return build_path_obj(obj['path']['root'], obj['path']['steps'])
+
+
 # ---------------------------------------------------------------- encoding real objects
-def enc_arg(v):
-    from glom.core import TType
-    if type(v) is TType:
-        return {'t': enc_ops(v.__ops__)}
-    return {'lit': bbrepr(v)}
-
-
 def enc_item(x):
     if type(x) is slice:
         f = lambda y: None if y is None else enc_arg(y)
@@ -185,7 +325,7 @@ def enc_ops(ops):
             steps.append({'call': {'args': [enc_arg(x) for x in args],
                                    'kwargs': [[k, enc_arg(v)] for k, v in kwargs.items()]}})
         elif op == 'P':
-            steps.append({'seg': bbrepr(arg)})
+            steps.append({'seg': enc_arg(arg)})
         elif op == 'x':
             steps.append('star')
         elif op == 'X':
@@ -198,10 +338,13 @@ def enc_ops(ops):
 def enc_obj(o):
     from glom import Path
     from glom.core import TType
-    if type(o) is TType:
-        return {'t': enc_ops(o.__ops__)}
-    if type(o) is Path:
-        return {'path': enc_ops(o.path_t.__ops__)}
+    try:
+        if type(o) is TType:
+            return {'t': enc_ops(o.__ops__)}
+        if type(o) is Path:
+            return {'path': enc_ops(o.path_t.__ops__)}
+    except Unencodable:
+        return None
     return None
 
 
@@ -215,7 +358,7 @@ def sample_targets():
                        k0=lambda *a, **k: len(a) + len(k))
         SAMPLE_TARGETS = [
             {'a': {'b': [1, 2, 3], 'a': 1, 0: 'zero'}, 'b': 'x', 0: [10, 20, 30], 1: {'a': 2},
-             'x y': 5, "it's": 6},
+             'x y': 5, "it's": 6, 10 ** 40: {'a': 7}, 2 ** 140 + 1: 8, (1, 2): 9, 'q' * 40: 10},
             [[1, 2, 3], {'a': 1}, 'abc', (4, 5, 6, 7)],
             o,
             'hello world',
@@ -276,11 +419,14 @@ def same_outcome(a, b, strict=True):
 
 
 def kwargs_sorted(x):
+    """keyword arguments in key order and dict arguments in printed order everywhere"""
     if isinstance(x, dict):
         if 'call' in x:
             ks = [k for k, _ in x['call']['kwargs']]
             if ks != sorted(ks):
                 return False
+        if 'dict' in x and x.get('order') not in (None, list(range(len(x['dict'])))):
+            return False
         return all(kwargs_sorted(v) for v in x.values())
     if isinstance(x, list):
         return all(kwargs_sorted(v) for v in x)
@@ -309,12 +455,20 @@ def run_repr(case):
 
 
 # ---------------------------------------------------------------- sequence cases
+def argtext(v):
+    """an argument as one canonical text (the sequence laws compare arguments as opaque values)"""
+    return json.dumps(enc_arg(v), sort_keys=True, separators=(',', ':'))
+
+
+def argvalue(text):
+    return build_arg(json.loads(text))
+
+
 def build_path(root, steps):
     """steps: [(op, argtext)] with op in '.', '[', 'P'"""
-    from glom import Path
-    return build_obj({'path': {'root': root, 'steps': [
-        {'attr': lit_value(a)} if op == '.' else
-        {'item': {'one': {'lit': a}}} if op == '[' else {'seg': a} for op, a in steps]}})
+    return build_path_obj(root, [
+        {'attr': argvalue(a)} if op == '.' else
+        {'item': {'one': json.loads(a)}} if op == '[' else {'seg': json.loads(a)} for op, a in steps])
 
 
 class Malformed(Exception):
@@ -327,7 +481,7 @@ def enc_pairs(p):
             or root_name(ops[0]) == '?':
         raise Malformed()
     return {'root': root_name(ops[0]),
-            'steps': [[ops[i], bbrepr(ops[i + 1])] for i in range(1, len(ops), 2)]}
+            'steps': [[ops[i], argtext(ops[i + 1])] for i in range(1, len(ops), 2)]}
 
 
 def run_seq(case):
@@ -338,9 +492,9 @@ def run_seq(case):
         if op == 'len':
             return {'nat': len(p)}
         if op == 'values':
-            return {'vals': [bbrepr(v) for v in p.values()]}
+            return {'vals': [argtext(v) for v in p.values()]}
         if op == 'items':
-            return {'pairs': [[o, bbrepr(v)] for o, v in p.items()]}
+            return {'pairs': [[o, argtext(v)] for o, v in p.items()]}
         if op == 'from_t':
             return {'path': enc_pairs(p.from_t())}
         if 'idx' in op:
@@ -410,89 +564,286 @@ def run_impl(case):
 
 # ---------------------------------------------------------------- generators
 ATTRS = ['a', 'b', 'c', 'k0', 'items', 'x_1', '_p', 'Path', 'T', '__class__', '__x', '__', '__star__', '___y']
-STRS = ['a', 'b', 'a.b', "it's", 'say "hi"', 'back\\slash', '', 'x y', '*', '**', 'é', 'T.a', '[0]', "a'b\"c", '\n']
+STRS = ['a', 'b', 'a.b', "it's", 'say "hi"', 'back\\slash', '', 'x y', '*', '**', 'é', 'T.a', '[0]', "a'b\"c", '\n',
+        '\t\r\x00\x1f\x7f', '\x80\xa0\xad\xff', '€ 日本', "'", '"', '...', 'Path(T)', 'a, b: c']
 INTS = [0, 1, 2, -1, -3, 7, 10 ** 20, -2 ** 63]
-FLOATS = [1.5, -0.0, 1e100, 0.1, 2.0]
-BUILTINS = [len, int, str, sorted, abs, dict]
+# past reprlib's default maxlong (40): 10**39 has exactly 40 digits (control)
+BIGINTS = [10 ** 39, 10 ** 40, 2 ** 140 + 1, -10 ** 40, -(10 ** 39), 10 ** 41 - 1, 7 ** 120, -(3 ** 300), 10 ** 300]
+FLOATS = [1.5, -0.0, 1e100, 0.1, 2.0, -2.5e-300, 1e16, 123456789.123456789, 5e-324]
+BADFLOATS = [float('inf'), float('-inf'), float('nan')]
+BUILTINS = [len, int, str, sorted, abs, dict, isinstance, ValueError]
 KWNAMES = ['x', 'a', 'key', 'b', 'zz', 'default', '_k']
+LONG_ALPHABET = ['a', 'b', 'Z', '0', ' ', '.', "'", '"', '\\', '\n', 'é', '€', '\x00', '\x7f', '\xad']
 
 
-def gen_literal(r, kind=None, depth=0):
-    k = kind or r.choice(['int', 'int', 'str', 'str', 'none', 'bool', 'float', 'tuple', 'builtin', 'slice'])
+def model_printable(c):
+    """Spec/C18.lean `pyPrintable`"""
+    return False if c < 32 else True if c < 127 else False if c <= 160 else c != 173
+
+
+for _s in STRS + LONG_ALPHABET:
+    for _c in _s:
+        assert model_printable(ord(_c)) == _c.isprintable(), 'str.isprintable model differs for %r' % _c
+
+
+def gen_long_str(r, lo, hi):
+    n = r.randint(lo, hi)
+    if r.random() < 0.5:
+        return r.choice('abxyz') * n
+    return ''.join(r.choice(LONG_ALPHABET) for _ in range(n))
+
+
+def gen_scalar(r, kind=None):
+    k = kind or ('badfloat' if r.random() < 0.012 else
+                 r.choice(['int', 'int', 'bigint', 'str', 'str', 'longstr', 'none', 'bool', 'float', 'builtin',
+                           'bytes', 'longbytes', 'ellipsis', 'float', 'bigint', 'longstr']))
     if k == 'int':
         return r.choice(INTS)
+    if k == 'bigint':
+        if r.random() < 0.3:
+            return r.choice([1, -1]) * r.randrange(10 ** 39, 10 ** r.choice([41, 45, 60, 120]))
+        return r.choice(BIGINTS)
+    if k == 'hugeint':
+        return r.choice([1, -1]) * (10 ** r.choice([1023, 1024, 1100]) + r.randrange(1000))
     if k == 'str':
         return r.choice(STRS)
+    if k == 'longstr':
+        # past reprlib's default maxstring (30), around it (28–32 with quotes), and well past
+        return gen_long_str(r, *r.choice([(26, 33), (31, 60), (100, 200)]))
+    if k == 'hugestr':
+        return gen_long_str(r, *r.choice([(1019, 1026), (1025, 1400)]))
     if k == 'none':
         return None
     if k == 'bool':
         return r.choice([True, False])
+    if k == 'ellipsis':
+        return Ellipsis
     if k == 'float':
         return r.choice(FLOATS)
+    if k == 'badfloat':
+        return r.choice(BADFLOATS)
     if k == 'builtin':
         return r.choice(BUILTINS)
-    if k == 'slice':
-        f = lambda: r.choice([None, None, 0, 1, -2, 5])
+    if k == 'bytes':
+        return r.choice([b'', b'abc', b"it's", b'\x00\xff\n', b'"q"', b"'\"\\"])
+    if k == 'longbytes':
+        return bytes(r.randrange(256) for _ in range(r.randint(8, 60)))
+    if k == 'hugebytes':
+        return bytes(r.randrange(97, 100) for _ in range(r.randint(1019, 1100)))
+    raise ValueError(k)
+
+
+HASHABLE_SCALARS = ['int', 'bigint', 'str', 'longstr']
+
+
+def gen_len(r, wide):
+    """number of elements of a container: around reprlib's default limits (4 for dicts, 6 otherwise)"""
+    if wide:
+        return r.choice([7, 8, 12, 5, 20])
+    return r.choice([0, 1, 1, 2, 3, 3, 4, 5, 6, 7])
+
+
+def gen_homog(r, n):
+    """n distinct sortable hashable values of one type (set elements / dict keys)"""
+    k = r.choice(['int', 'int', 'str', 'tuple', 'mixed-int'])
+    out = []
+    seen = set()
+    tries = 0
+    while len(out) < n and tries < 10 * n + 20:
+        tries += 1
+        if k == 'int':
+            v = r.randrange(-50, 50)
+        elif k == 'mixed-int':
+            v = gen_scalar(r, r.choice(['int', 'bigint']))
+        elif k == 'str':
+            v = gen_scalar(r, r.choice(['str', 'str', 'longstr']))
+        else:
+            v = tuple(r.randrange(5) for _ in range(r.randint(0, 3)))
+        if v not in seen:
+            seen.add(v)
+            out.append(v)
+    return out
+
+
+def gen_value(r, depth, tdepth, wide=None):
+    """a Python value for an argument position: scalar, container (holding scalars, containers,
+    T / Path objects), slice object, nested T / S expression, nested Path"""
+    p = r.random()
+    if depth <= 0 or p < 0.45:
+        return gen_scalar(r)
+    wide = r.random() < 0.25 if wide is None else wide
+    if p < 0.53 and tdepth > 0:
+        return build_arg(gen_nested_t(r, tdepth - 1))
+    if p < 0.58 and tdepth > 0:
+        return build_arg(gen_nested_path(r, tdepth - 1))
+    if p < 0.63:
+        f = lambda: r.choice([None, None, 0, 1, -2, 5, 10 ** 40, 'k', (1, 2)])
         return slice(f(), f(), f())
-    n = r.choice([0, 1, 1, 2, 3])
-    return tuple(gen_literal(r, r.choice(['int', 'str', 'none', 'tuple'] if depth < 2 else ['int', 'str']),
-                             depth + 1) for _ in range(n))
+    n = gen_len(r, wide)
+    kind = r.choice(['tuple', 'tuple', 'list', 'list', 'dict', 'set', 'frozenset'])
+    sub = lambda: gen_value(r, depth - 1, tdepth, wide=False)
+    if kind == 'tuple':
+        return tuple(sub() for _ in range(n))
+    if kind == 'list':
+        return [sub() for _ in range(n)]
+    if kind == 'dict':
+        keys = gen_homog(r, n)
+        r.shuffle(keys)
+        return {k: sub() for k in keys}
+    vals = gen_homog(r, n)
+    return set(vals) if kind == 'set' else frozenset(vals)
 
 
-def lit(v):
-    t = bbrepr(v)
-    try:
-        ok = (lit_value(t) == v or v != v) and bbrepr(lit_value(t)) == t
-    except Exception:
-        ok = False
-    if not ok:
-        raise ValueError('literal does not round-trip: %r' % (t,))
-    return {'lit': t}
+def gen_deep(r, levels):
+    """containers nested `levels` deep (reprlib's default maxlevel is 6)"""
+    v = gen_scalar(r, r.choice(['int', 'str', 'none']))
+    for _ in range(levels):
+        k = r.choice(['list', 'tuple', 'tuple1', 'dict', 'fs', 'list2'])
+        if k == 'list':
+            v = [v]
+        elif k == 'list2':
+            v = [gen_scalar(r, 'int'), v]
+        elif k == 'tuple':
+            v = (v, gen_scalar(r, 'int'))
+        elif k == 'tuple1':
+            v = (v,)
+        elif k == 'dict':
+            v = {'k': v}
+        else:
+            try:
+                hash(v)
+                v = frozenset([v])
+            except TypeError:
+                v = [v]
+    return v
 
 
-def gen_arg(r, depth, atom_kinds=None):
-    """a call argument / slice part / tuple element: literal or nested T expression"""
-    if depth > 0 and r.random() < 0.22:
-        root = r.choice(['T', 'T', 'S'])
-        steps = fix_s_call(root, gen_steps(r, r.randint(0, 3), depth - 1, False))
-        if not a_ok(root, steps):
-            root = 'T'
-        return {'t': {'root': root, 'steps': steps}}
-    v = gen_literal(r, r.choice(atom_kinds) if atom_kinds else None)
-    return lit(v)
+def gen_huge(r):
+    k = r.choice(['hugeint', 'hugestr', 'hugebytes', 'list', 'tuple', 'dict', 'set', 'wide-t'])
+    if k in ('hugeint', 'hugestr', 'hugebytes'):
+        return gen_scalar(r, k)
+    n = r.choice([1024, 1025, 1100])
+    if k == 'list':
+        return list(range(n))
+    if k == 'tuple':
+        return tuple(range(n))
+    if k == 'dict':
+        return {i: 0 for i in range(n)}
+    if k == 'set':
+        return set(range(n))
+    from glom import T
+    return T['a' * r.choice([500, 520])]['b' * r.choice([495, 510])]
+
+
+def arg_of_value(v):
+    a = enc_arg(v)
+    mark_orders(a, v)
+    return a
+
+
+def mark_orders(a, v):
+    """record the insertion order of dict values (the case lists entries in printed order)"""
+    if 'dict' in a:
+        keys = possibly_sorted(v)
+        pos = {id(k): i for i, k in enumerate(keys)}
+        order = [pos[id(k)] for k in v]
+        if order != list(range(len(order))):
+            a['order'] = order
+        for (ka, va), k in zip(a['dict'], keys):
+            mark_orders(ka, k)
+            mark_orders(va, v[k])
+    elif 'seq' in a:
+        xs = list(v) if a['seq'][0] in ('tuple', 'list') else possibly_sorted(v)
+        for xa, x in zip(a['seq'][1], xs):
+            mark_orders(xa, x)
+    elif 'sliceobj' in a:
+        for xa, x in zip(a['sliceobj'], (v.start, v.stop, v.step)):
+            mark_orders(xa, x)
+
+
+def gen_nested_t(r, depth):
+    root = r.choice(['T', 'T', 'S'])
+    steps = fix_s_call(root, gen_steps(r, r.randint(0, 3), depth, False))
+    if not a_ok(root, steps):
+        root = 'T'
+    return {'t': {'root': root, 'steps': steps}}
+
+
+def gen_nested_path(r, depth):
+    root = r.choice(['T', 'T', 'S', 'A'])
+    steps = fix_s_call(root, gen_steps(r, r.randint(0, 3), depth, True))
+    if not a_ok(root, steps):
+        root = 'T'
+    return {'path': {'root': root, 'steps': steps}}
+
+
+def gen_arg(r, depth, kinds=None):
+    """a call argument / slice part / tuple element: scalar, container, slice object, nested T / Path"""
+    if kinds:
+        return {'lit': enc_scalar(gen_scalar(r, r.choice(kinds)))}
+    p = r.random()
+    if depth > 0 and p < 0.2:
+        return gen_nested_t(r, depth - 1)
+    if depth > 0 and p < 0.25:
+        return gen_nested_path(r, depth - 1)
+    if p < 0.31:
+        return arg_of_value(gen_deep(r, r.choice([2, 5, 6, 7, 7, 8, 9])))
+    if HUGE_LITERALS and p < 0.36:
+        return arg_of_value(gen_huge(r))
+    return arg_of_value(gen_value(r, r.choice([0, 0, 1, 2, 3]), depth))
+
+
+def is_index_atom(a):
+    return not ('sliceobj' in a or ('seq' in a and a['seq'][0] == 'tuple'))
 
 
 def gen_index_atom(r, depth):
     """an index that is neither a tuple nor a slice object"""
-    return gen_arg(r, depth, ['int', 'int', 'str', 'str', 'none', 'bool', 'float', 'builtin'])
+    for _ in range(20):
+        a = gen_arg(r, depth)
+        if is_index_atom(a):
+            return a
+    return {'lit': enc_scalar(0)}
 
 
 def gen_item(r, depth):
     if r.random() < 0.3:
-        f = lambda: None if r.random() < 0.45 else gen_arg(r, depth, ['int', 'int', 'int', 'none', 'str'])
+        f = lambda: None if r.random() < 0.45 else (
+            gen_arg(r, depth, ['int', 'int', 'int', 'none', 'str', 'bigint']) if r.random() < 0.7
+            else gen_arg(r, depth))
         a, b, c = f(), f(), f()
         # a slice part that is literally None is the same as an absent part
         z = lambda x: None if (x is not None and x.get('lit') == 'None') else x
         return {'slice': [z(a), z(b), z(c)]}
     if r.random() < 0.15:
-        return {'one': lit(gen_literal(r, 'tuple'))}      # a tuple nested inside a tuple index
+        # a tuple nested inside a tuple index
+        return {'one': arg_of_value(tuple(gen_value(r, 1, 0) for _ in range(r.choice([0, 1, 1, 2, 3, 7]))))}
     return {'one': gen_index_atom(r, depth)}
 
 
 def gen_step(r, depth, allow_seg):
     p = r.random()
     if allow_seg and p < 0.3:
-        return {'seg': lit(gen_literal(r, r.choice(['int', 'str', 'str', 'none', 'float', 'tuple', 'bool'])))['lit']}
+        # a plain segment: anything but a T / Path (those are flattened by Path.__init__)
+        for _ in range(20):
+            a = gen_arg(r, min(depth, 1))
+            if 't' not in a and 'path' not in a and (LIST_SEGMENTS or not ('seq' in a and a['seq'][0] == 'list')):
+                return {'seg': a}
+        return {'seg': {'lit': enc_scalar('a')}}
     if p < 0.5:
         return {'attr': r.choice(ATTRS)}
     if p < 0.68:
         it = gen_item(r, depth)
-        if 'one' in it and 'lit' in it['one'] and type(lit_value(it['one']['lit'])) in (tuple, slice):
+        if 'one' in it and not is_index_atom(it['one']):
+            if 'sliceobj' in it['one']:
+                return {'items': [{'one': {'lit': enc_scalar(1)}}]}
             return {'items': [it]}
         return {'item': it}
     if p < 0.8:
         n = r.choice([0, 1, 1, 2, 3])
-        return {'items': [gen_item(r, depth) for _ in range(n)]}
+        its = [gen_item(r, depth) for _ in range(n)]
+        # a slice object inside a tuple index is an Item.slice
+        return {'items': [it for it in its if not ('one' in it and 'sliceobj' in it['one'])]}
     if p < 0.94:
         na = r.choice([0, 1, 1, 2])
         kws = r.sample(KWNAMES, r.choice([0, 0, 1, 2, 3, 4, 6]))
@@ -526,20 +877,49 @@ def fix_s_call(root, steps):
     return steps
 
 
+def L(v):
+    return {'lit': enc_scalar(v)}
+
+
 CORNERS = [
-    [{'items': [{'one': {'lit': '1'}}]}],                      # T[(1,)]
+    [{'items': [{'one': L(1)}]}],                              # T[(1,)]
     [{'items': []}],                                           # T[()]
     [{'attr': '__class__'}],                                   # T.__('class__')
-    [{'attr': 'a'}, {'items': [{'one': {'lit': "'k'"}}]}, {'attr': 'b'}],
-    [{'items': [{'one': {'lit': '()'}}]}],                     # T[((),)]
-    [{'items': [{'slice': [None, {'lit': '2'}, None]}]}],      # T[:2,]
-    [{'item': {'one': {'lit': "(1, 2)"}}}] and [{'items': [{'one': {'lit': '1'}}, {'one': {'lit': '2'}}]}],
-    [{'attr': '__'}, {'call': {'args': [{'lit': "'x'"}], 'kwargs': []}}],   # T.__('')('x')
+    [{'attr': 'a'}, {'items': [{'one': L('k')}]}, {'attr': 'b'}],
+    [{'items': [{'one': {'seq': ['tuple', []]}}]}],            # T[((),)]
+    [{'items': [{'slice': [None, L(2), None]}]}],              # T[:2,]
+    [{'items': [{'one': L(1)}, {'one': L(2)}]}],
+    [{'attr': '__'}, {'call': {'args': [L('x')], 'kwargs': []}}],           # T.__('')('x')
     [{'attr': '__star__'}, {'call': {'args': [], 'kwargs': []}}],           # T.__('star__')()
-    [{'call': {'args': [], 'kwargs': [['b', {'lit': '1'}], ['a', {'lit': '2'}]]}}],
+    [{'call': {'args': [], 'kwargs': [['b', L(1)], ['a', L(2)]]}}],
     [{'item': {'slice': [None, None, None]}}],
-    [{'item': {'slice': [{'t': {'root': 'T', 'steps': [{'attr': 'a'}]}}, None, {'lit': '-1'}]}}],
+    [{'item': {'slice': [{'t': {'root': 'T', 'steps': [{'attr': 'a'}]}}, None, L(-1)]}}],
+    # literals past reprlib's default limits, one per limit
+    [{'item': {'one': L(2 ** 140 + 1)}}, {'item': {'one': L('n')}}],                     # maxlong
+    [{'call': {'args': [L('x' * 31)], 'kwargs': [['k', L(-10 ** 40)]]}}],                 # maxstring, maxlong
+    [{'call': {'args': [{'seq': ['list', [L(i) for i in range(7)]]}], 'kwargs': []}}],    # maxlist
+    [{'call': {'args': [{'seq': ['tuple', [L(i) for i in range(7)]]}], 'kwargs': []}}],   # maxtuple
+    [{'call': {'args': [{'seq': ['set', [L(i) for i in range(7)]]}], 'kwargs': []}}],     # maxset
+    [{'call': {'args': [{'seq': ['frozenset', [L(i) for i in range(7)]]}], 'kwargs': []}}],
+    [{'call': {'args': [{'dict': [[L(i), L(0)] for i in range(5)]}], 'kwargs': []}}],     # maxdict
+    [{'call': {'args': [L(bytes(range(40, 70)))], 'kwargs': []}}],                        # maxother
+    [{'call': {'args': [{'seq': ['set', []]}, {'seq': ['frozenset', []]}, {'dict': []},
+                        {'seq': ['tuple', [L(1)]]}, {'seq': ['list', []]}], 'kwargs': []}}],
+    [{'call': {'args': [{'sliceobj': [L(1), L(None), L(10 ** 40)]}], 'kwargs': []}}],
+    [{'call': {'args': [{'path': {'root': 'T', 'steps': [{'seg': L('a')}, {'attr': 'b'}, 'star']}}],
+               'kwargs': []}}],
+    [{'call': {'args': [{'t': {'root': 'T', 'steps': [{'item': {'one': L('k' * 40)}}]}}], 'kwargs': []}}],
 ]
+
+
+def deep_corner(levels):
+    a = L(1)
+    for _ in range(levels):
+        a = {'seq': ['list', [a]]}
+    return [{'call': {'args': [a], 'kwargs': []}}]
+
+
+CORNERS += [deep_corner(6), deep_corner(7)]                    # maxlevel
 
 
 def gen_repr_case(r, tier):
@@ -568,18 +948,106 @@ def gen_repr_case(r, tier):
     return {'kind': 'repr', 'obj': {'path': {'root': root, 'steps': steps}}}
 
 
-SEQ_ARGS = [("'a'", '.'), ("'b'", '.'), ('0', '['), ("'k'", '['), ("'p'", 'P'), ('1', 'P'), ("'a.b'", 'P')]
+def sanitize_plain(a):
+    """an argument printed by the builtin repr (a plain Path segment, a part of a slice object): Python
+    prints a set in iteration order, which eval(repr(s)) does not keep, and a dict in insertion order —
+    sets of two or more elements are not generated there, dicts are built in printed order, and (gated,
+    see above) builtin functions are replaced"""
+    if 'lit' in a:
+        if isinstance(a['lit'], dict) and 'bi' in a['lit'] and not PLAIN_BUILTINS:
+            return {'lit': {'i': '3'}}
+        return a
+    if 'seq' in a:
+        kind, xs = a['seq']
+        xs = [sanitize_plain(x) for x in xs]
+        if kind in ('set', 'frozenset') and len(xs) > 1:
+            xs = xs[:1]
+        return {'seq': [kind, xs]}
+    if 'dict' in a:
+        return {'dict': [[sanitize_plain(k), sanitize_plain(v)] for k, v in a['dict']]}
+    if 'sliceobj' in a:
+        return {'sliceobj': [sanitize_plain(x) for x in a['sliceobj']]}
+    return a      # a nested T / Path prints its own arguments with bbrepr
 
 
-def seq_steps(r, n):
-    return [[op, a] for a, op in (r.choice(SEQ_ARGS) for _ in range(n))]
+def sanitize(x, plain=False):
+    """apply `sanitize_plain` below every plain segment and every slice object"""
+    if isinstance(x, dict):
+        if 'seg' in x and isinstance(x['seg'], dict):
+            return {'seg': sanitize(sanitize_plain(x['seg']))}
+        if 'sliceobj' in x:
+            x = sanitize_plain(x)
+        return {k: sanitize(v) for k, v in x.items()}
+    if isinstance(x, list):
+        return [sanitize(v) for v in x]
+    return x
+
+
+def nested_instances(x):
+    """the nested T / Path / slice-object arguments of a case (printed through repr_instance)"""
+    if isinstance(x, dict):
+        for k in ('t', 'path'):
+            if k in x and isinstance(x[k], dict) and 'root' in x[k]:
+                yield x
+        if 'sliceobj' in x:
+            yield x
+        for v in x.values():
+            yield from nested_instances(v)
+    elif isinstance(x, list):
+        for v in x:
+            yield from nested_instances(v)
+
+
+def within_limits(case):
+    """no nested instance is wider than the _BBRepr limit (they are cut above it: HUGE_LITERALS)"""
+    if HUGE_LITERALS:
+        return True
+    o = case['obj'].get('t') or case['obj'].get('path')
+    for a in nested_instances(o['steps']):
+        if len(repr(build_arg(a))) > 1000:
+            return False
+    return True
+
+
+def strip_orders(x):
+    if isinstance(x, dict):
+        return {k: strip_orders(v) for k, v in x.items() if k != 'order'}
+    if isinstance(x, list):
+        return [strip_orders(v) for v in x]
+    return x
+
+
+def check_faithful(case):
+    """the case describes the object that is built from it (a generator bug otherwise)"""
+    got = enc_obj(build_obj(case['obj']))
+    want = strip_orders(case['obj'])
+    if got != want:
+        raise AssertionError('case does not describe the object built from it:\n%s\n%s'
+                             % (json.dumps(want)[:600], json.dumps(got)[:600]))
+
+
+SEQ_VALUES = [('a', '.'), ('b', '.'), (0, '['), ('k', '['), ('p', 'P'), (1, 'P'), ('a.b', 'P'),
+              (10 ** 40, 'P'), (2 ** 140 + 1, '['), ((1, 'x' * 35), 'P'), ([1, 2, 3, 4, 5, 6, 7], '['), (None, 'P')]
+SEQ_ARGS = None
+
+
+def seq_args():
+    global SEQ_ARGS
+    if SEQ_ARGS is None:
+        SEQ_ARGS = [(argtext(v), op) for v, op in SEQ_VALUES]
+    return SEQ_ARGS
+
+
+def seq_steps(r, n, simple=False):
+    args = seq_args()[:7] if simple else seq_args()
+    return [[op, a] for a, op in (r.choice(args) for _ in range(n))]
 
 
 def gen_seq_exhaustive():
     rng = random.Random(4242)
     vals = [None] + list(range(-8, 9))
     for n in range(0, 6):
-        steps = seq_steps(rng, n)
+        steps = seq_steps(rng, n, simple=True)
         root = 'T' if n % 2 == 0 else rng.choice(['T', 'S'])
         for i in range(-8, 9):
             yield {'kind': 'seq', 'root': root, 'steps': steps, 'op': {'idx': i}}
@@ -610,7 +1078,7 @@ def gen_seq_random(r, n_cases):
             elif m < 0.8 and n:
                 other = json.loads(json.dumps(steps[:r.randint(1, n)]))
                 j = r.randrange(len(other))
-                other[j] = list(r.choice(SEQ_ARGS))[::-1]
+                other[j] = list(r.choice(seq_args()))[::-1]
             else:
                 other = steps + seq_steps(r, r.randint(1, 2))
             op = {r.choice(['eq', 'startswith']): {'root': oroot, 'steps': other}}
@@ -627,7 +1095,7 @@ def gen_concat(r, tier, n_cases):
         # CPython has one empty tuple: two empty-tuple cells would be the same object
         while sum(1 for c in heap if c['c'] == 'tuple' and not c['v']) > 1:
             heap, root = c01.gen_target(r, False, r.choice([2, 3, 4, 5]))
-        walk, _ = c01.valid_walk(r, heap, root, r.randint(0, maxlen))
+        walk, _ = c01.valid_walk(r, heap, root, r.randint(0, maxlen), c01.TableMirror())   # default registrations
         steps = []
         for kind, key, _cur in walk:
             q = r.random()
@@ -651,12 +1119,22 @@ def gen_concat(r, tier, n_cases):
 
 
 def generate(rng, tier, scale, **focus):
-    n = (900 if tier == 'quick' else 25000) * scale
+    n = (700 if tier == 'quick' else 20000) * scale
     for i in range(n):
         try:
-            yield gen_repr_case(rng, tier)
-        except ValueError:
+            case = gen_repr_case(rng, tier)
+        except (ValueError, Unencodable):
             continue
+        case['obj'] = sanitize(case['obj'])
+        try:
+            check_faithful(case)
+            if not within_limits(case):
+                continue
+        except AssertionError:
+            raise
+        except Exception:      # e.g. RecursionError while building a deep value
+            continue
+        yield case
     yield from gen_seq_random(rng, (400 if tier == 'quick' else 12000) * scale)
     yield from gen_concat(rng, tier, (300 if tier == 'quick' else 8000) * scale)
     if not focus:
@@ -666,15 +1144,20 @@ def generate(rng, tier, scale, **focus):
 def corpus():
     mk = lambda steps, kind='t', root='T': {'kind': 'repr', 'obj': {kind: {'root': root, 'steps': steps}}}
     out = [mk(json.loads(json.dumps(c))) for c in CORNERS]
+    out += [mk(json.loads(json.dumps(c)), 'path') for c in CORNERS[12:]]
+    seg3 = [['P', argtext('a')], ['P', argtext('b')], ['P', argtext('c')]]
     out += [
         # the defects repaired by 4f7a77c
-        {'kind': 'seq', 'root': 'T', 'steps': [['P', "'a'"], ['P', "'b'"], ['P', "'c'"]], 'op': {'idx': 3}},
-        {'kind': 'seq', 'root': 'T', 'steps': [['P', "'a'"], ['P', "'b'"], ['P', "'c'"]],
-         'op': {'slice': [2, 0, -1]}},
-        {'kind': 'seq', 'root': 'T', 'steps': [['P', "'a'"], ['P', "'b'"], ['P', "'c'"]],
-         'op': {'slice': [-5, 2, None]}},
-        mk([{'seg': "'a'"}, {'attr': 'b'}, 'star', {'seg': '2'}], 'path'),
+        {'kind': 'seq', 'root': 'T', 'steps': seg3, 'op': {'idx': 3}},
+        {'kind': 'seq', 'root': 'T', 'steps': seg3, 'op': {'slice': [2, 0, -1]}},
+        {'kind': 'seq', 'root': 'T', 'steps': seg3, 'op': {'slice': [-5, 2, None]}},
+        mk([{'seg': L('a')}, {'attr': 'b'}, 'star', {'seg': L(2)}], 'path'),
         mk([], 'path'),
+        # literals past reprlib's default limits in a plain segment (printed by the builtin repr)
+        mk([{'seg': L(10 ** 40)}, {'seg': {'seq': ['tuple', [L(i) for i in range(8)]]}}, {'attr': 'a'}], 'path'),
+        # outside the domain: no literal for inf; a builtin inside a plain segment
+        mk([{'call': {'args': [L(float('inf'))], 'kwargs': []}}]),
+        mk([{'seg': L(len)}], 'path'),
     ]
     p = os.path.join(os.path.dirname(os.path.dirname(os.path.dirname(os.path.abspath(__file__)))),
                      'corpus', 'C18.jsonl')
@@ -691,7 +1174,9 @@ def key(case):
 
 def has_nested(x):
     if isinstance(x, dict):
-        return 't' in x and 'root' in x['t'] or any(has_nested(v) for v in x.values())
+        return (('t' in x and isinstance(x['t'], dict) and 'root' in x['t']) or 'seq' in x or 'dict' in x
+                or 'sliceobj' in x or ('path' in x and isinstance(x['path'], dict) and 'root' in x['path'])
+                or any(has_nested(v) for v in x.values()))
     if isinstance(x, list):
         return any(has_nested(v) for v in x)
     return False
@@ -707,40 +1192,115 @@ def nontrivial(case, verdict):
     return True
 
 
+# ---------------------------------------------------------------- shrinking
+ARG_KEYS = ('lit', 't', 'path', 'seq', 'dict', 'sliceobj')
+
+
+def is_arg(x):
+    return isinstance(x, dict) and any(k in x for k in ARG_KEYS) and 'root' not in x
+
+
+def smaller_args(a):
+    """smaller arguments to put in the place of `a`"""
+    if 'seq' in a:
+        kind, xs = a['seq']
+        for j in range(len(xs)):
+            yield {'seq': [kind, xs[:j] + xs[j + 1:]]}
+        for x in xs:
+            yield x
+    elif 'dict' in a:
+        kvs = a['dict']
+        for j in range(len(kvs)):
+            yield {'dict': kvs[:j] + kvs[j + 1:]}
+        for k, v in kvs:
+            yield v
+    elif 'sliceobj' in a:
+        for x in a['sliceobj']:
+            yield x
+    elif 't' in a or 'path' in a:
+        kk = 't' if 't' in a else 'path'
+        st = a[kk]['steps']
+        for j in range(len(st)):
+            yield {kk: {'root': a[kk]['root'], 'steps': st[:j] + st[j + 1:]}}
+        if a[kk]['root'] != 'T':
+            yield {kk: {'root': 'T', 'steps': st}}
+    elif 'lit' in a:
+        s = a['lit']
+        if isinstance(s, dict):
+            if 'i' in s and len(s['i']) > 2:
+                yield {'lit': {'i': s['i'][:len(s['i']) // 2 + 1]}}
+                yield {'lit': {'i': s['i'][:-1]}}
+            if 's' in s and len(s['s']) > 1:
+                yield {'lit': {'s': s['s'][:len(s['s']) // 2]}}
+                yield {'lit': {'s': s['s'][:-1]}}
+            if 'b' in s and len(s['b']) > 1:
+                yield {'lit': {'b': s['b'][:len(s['b']) // 2]}}
+                yield {'lit': {'b': s['b'][:-1]}}
+        if s != {'i': '0'}:
+            yield {'lit': {'i': '0'}}
+
+
+def variants(x):
+    """copies of a JSON value with one argument node replaced by a smaller one"""
+    if is_arg(x):
+        for y in smaller_args(x):
+            yield y
+    if isinstance(x, dict):
+        for k, v in x.items():
+            if k == 'order':
+                continue
+            for v2 in variants(v):
+                y = {kk: vv for kk, vv in x.items() if kk != 'order'}
+                y[k] = v2
+                yield y
+    elif isinstance(x, list):
+        for i, v in enumerate(x):
+            for v2 in variants(v):
+                yield x[:i] + [v2] + x[i + 1:]
+
+
+def buildable(case):
+    try:
+        check_faithful(case)
+        return True
+    except Exception:
+        return False
+
+
 def shrink(case):
     base = {k: v for k, v in case.items() if k != 'impl'}
     if case['kind'] == 'repr':
         kind = 't' if 't' in case['obj'] else 'path'
         o = case['obj'][kind]
         st = o['steps']
-        for i in range(len(st)):
+
+        def mk(steps, root=o['root']):
             c = dict(base)
-            c['obj'] = {kind: {'root': o['root'], 'steps': st[:i] + st[i + 1:]}}
-            yield c
+            c['obj'] = {kind: {'root': root, 'steps': steps}}
+            return c
+        cands = [mk(st[:i] + st[i + 1:]) for i in range(len(st))]
         for i, s in enumerate(st):
             if isinstance(s, dict) and 'call' in s:
                 for j in range(len(s['call']['args'])):
                     s2 = {'call': {'args': s['call']['args'][:j] + s['call']['args'][j + 1:],
                                    'kwargs': s['call']['kwargs']}}
-                    c = dict(base)
-                    c['obj'] = {kind: {'root': o['root'], 'steps': st[:i] + [s2] + st[i + 1:]}}
-                    yield c
+                    cands.append(mk(st[:i] + [s2] + st[i + 1:]))
                 for j in range(len(s['call']['kwargs'])):
                     s2 = {'call': {'args': s['call']['args'],
                                    'kwargs': s['call']['kwargs'][:j] + s['call']['kwargs'][j + 1:]}}
-                    c = dict(base)
-                    c['obj'] = {kind: {'root': o['root'], 'steps': st[:i] + [s2] + st[i + 1:]}}
-                    yield c
+                    cands.append(mk(st[:i] + [s2] + st[i + 1:]))
             if isinstance(s, dict) and 'items' in s and len(s['items']) > 1:
                 for j in range(len(s['items'])):
                     s2 = {'items': s['items'][:j] + s['items'][j + 1:]}
-                    c = dict(base)
-                    c['obj'] = {kind: {'root': o['root'], 'steps': st[:i] + [s2] + st[i + 1:]}}
-                    yield c
+                    cands.append(mk(st[:i] + [s2] + st[i + 1:]))
         if o['root'] != 'T':
-            c = dict(base)
-            c['obj'] = {kind: {'root': 'T', 'steps': st}}
-            yield c
+            cands.append(mk(st, 'T'))
+        for i, s in enumerate(st):
+            for s2 in variants(s):
+                cands.append(mk(st[:i] + [s2] + st[i + 1:]))
+        for c in cands:
+            if buildable(c):
+                yield c
     elif case['kind'] == 'seq':
         st = case['steps']
         for i in range(len(st)):
